@@ -4,7 +4,7 @@
  * current /repo tree and writes one ndjson event per API call.
  *
  * Script:
- *   link <id> <ch> <rate> <q100> <nsamp> <seed> [sig=<k>] [managed=<max>,<nom>,<min>]
+ *   link <id> <ch> <rate> <q100> <nsamp> <seed> [sig=<k>] [managed=<max>,<nom>,<min>] [bs0=<log2>] [trim=<k>,<p>]
  *   file <id> <linkid>[:opt...] ...      opts: s=<serial> ppp=a,b,c pad=<pkt>=<bytes> g=<gpoff> mux=<0|1|2> hs=<0|1> noeos=1
  *   dmg <fileid> <kind> <a> <b>          page-level damage (see apply_damage)
  *   scn <name> [budget=<sec>]
@@ -222,7 +222,8 @@ static int qref(float f,int word,int sgned){
 }
 static void f32parts(float f,int *s,int *e,int *m){ uint32_t u; memcpy(&u,&f,4); *s=u>>31; *e=(u>>23)&255; *m=u&0x7fffff; }
 
-static void do_readi(int h,long len,int word,int sgned,int be){
+static void halve_filter(float **pcm,long ch,long n,void *arg){ (void)arg; for(long c=0;c<ch;c++) for(long i=0;i<n;i++) pcm[c][i]*=0.5f; }
+static void do_readi(int h,long len,int word,int sgned,int be,int gain){
   hnd_t *x=&H[h]; OggVorbis_File *vf=&x->vf; int bs=-7;
   static unsigned char buf[1<<20]; static unsigned char guard[64];
   if(len>(long)sizeof(buf)-64) len=sizeof(buf)-64;
@@ -230,9 +231,9 @@ static void do_readi(int h,long len,int word,int sgned,int be){
   memset(buf,0xA5,gl+64);
   long t0=vf->pcm_offset; int hs=0;
   call_begin(h);
-  long n=ov_read(vf,(char*)buf,(int)len,be,word,sgned,&bs);
+  long n=gain?ov_read_filter(vf,(char*)buf,(int)len,be,word,sgned,&bs,halve_filter,NULL):ov_read(vf,(char*)buf,(int)len,be,word,sgned,&bs);
   memset(guard,0xA5,64);
-  ev_begin("ReadI"); ev_i("len",len); ev_i("word",word); ev_i("sg",sgned); ev_i("be",be); ev_i("ret",n); ev_i("bs",bs); ev_i("t0",t0);
+  ev_begin("ReadI"); ev_i("gain",gain); ev_i("len",len); ev_i("word",word); ev_i("sg",sgned); ev_i("be",be); ev_i("ret",n); ev_i("bs",bs); ev_i("t0",t0);
   ev_b("guard", memcmp(buf+(n>0?n:0),guard,64)==0 && (n>0 || is_zero(guard,0) ));
   /* untouched on error / eof? */
   { int untouched=1; if(n<=0) for(long i=0;i<gl;i++) if(buf[i]!=0xA5){untouched=0;break;} ev_b("untouched",untouched); }
@@ -251,7 +252,7 @@ static void do_readi(int h,long len,int word,int sgned,int be){
       if(ref && ch==L->ch && q+frames<=nr && !(hs&&(p&1))){
         ok=1;
         for(long j=0;j<frames&&ok;j++) for(int c=0;c<ch;c++){
-          int v=qref(ref[c][q+j],w,sgned); const unsigned char *b=buf+(j*ch+c)*w; int got;
+          int v=qref(gain?ref[c][q+j]*0.5f:ref[c][q+j],w,sgned); const unsigned char *b=buf+(j*ch+c)*w; int got;
           if(w==1) got=sgned?(signed char)b[0]:b[0];
           else { int u=be?(b[0]<<8|b[1]):(b[1]<<8|b[0]); got=sgned?(short)u:u; }
           if(got!=v){ ok=0; break; }
@@ -260,7 +261,7 @@ static void do_readi(int h,long len,int word,int sgned,int be){
         ev_arr_begin("smp");
         long idx[4]={0,frames-1,frames/2,frames/3}; int nidx=frames>=4?4:(int)frames;
         for(int k=0;k<nidx;k++){ long j=idx[k]; for(int c=0;c<ch&&c<4;c++){
-          int s,e,m; f32parts(ref[c][q+j],&s,&e,&m); const unsigned char *b=buf+(j*ch+c)*w; char t[160];
+          int s,e,m; f32parts(gain?ref[c][q+j]*0.5f:ref[c][q+j],&s,&e,&m); const unsigned char *b=buf+(j*ch+c)*w; char t[160];
           snprintf(t,sizeof t,"{\"j\":%ld,\"c\":%d,\"s\":%d,\"ex\":%d,\"m\":%d,\"b0\":%d,\"b1\":%d}",j,c,s,e,m,b[0],w==2?b[1]:-1); ev_arr_raw(t); } }
         ev_arr_end(); smp_done=1;
       }
@@ -415,7 +416,8 @@ static int run_scenario(int from,int to,const char *name,int budget){
     else if(!strcmp(c,"rf")&&nt>=3) do_readf(atoi(tok[1]),atol(tok[2]));
     else if(!strcmp(c,"rfn")&&nt>=4){ int h=atoi(tok[1]); long cnt=atol(tok[3]); for(long i=0;(cnt<0||i<cnt)&&i<400000;i++){ long r=do_readf(h,atol(tok[2])); if(r<=0&&(cnt<0||r!=OV_HOLE)) break; } }
     else if(!strcmp(c,"rif")&&nt>=7) do_readi_inj(atoi(tok[1]),atol(tok[2]),atoi(tok[3]),atoi(tok[4]),atoi(tok[5]),tok[6]);
-    else if(!strcmp(c,"ri")&&nt>=6) do_readi(atoi(tok[1]),atol(tok[2]),atoi(tok[3]),atoi(tok[4]),atoi(tok[5]));
+    else if(!strcmp(c,"ri")&&nt>=6) do_readi(atoi(tok[1]),atol(tok[2]),atoi(tok[3]),atoi(tok[4]),atoi(tok[5]),0);
+    else if(!strcmp(c,"rig")&&nt>=6) do_readi(atoi(tok[1]),atol(tok[2]),atoi(tok[3]),atoi(tok[4]),atoi(tok[5]),1);   /* through ov_read_filter with a gain-1/2 filter */
     else if((!strcmp(c,"ps")||!strcmp(c,"psp")||!strcmp(c,"rs")||!strcmp(c,"psl")||!strcmp(c,"pspl")||!strcmp(c,"rsl"))&&nt>=3) do_seek(atoi(tok[1]),c,tok[2]);
     else if((!strcmp(c,"ts")||!strcmp(c,"tsp")||!strcmp(c,"tsl")||!strcmp(c,"tspl"))&&nt>=5) do_tseek(atoi(tok[1]),c,atol(tok[2]),atol(tok[3]),atol(tok[4]));
     else if(!strcmp(c,"hr")&&nt>=3){ int h=atoi(tok[1]); long t0=H[h].vf.pcm_offset; int rs0=H[h].vf.ready_state; call_begin(h); int ret=ov_halfrate(&H[h].vf,atoi(tok[2])); ev_begin("HalfRate"); ev_i("flag",atoi(tok[2])); ev_i("ret",ret); ev_i("t0",t0); ev_i("rs0",rs0); ev_state(h); ev_end(); }
@@ -450,8 +452,8 @@ int main(int argc,char **argv){
     if(nt==0||tok[0][0]=='#'){ free(ln); i++; continue; }
     if(!strcmp(tok[0],"link")&&nt>=7){
       int id=atoi(tok[1]); int sig=0,managed=0; long mx=-1,nm=-1,mn=-1;
-      extern int g_bs0_patch; g_bs0_patch=0;
-      for(int k=7;k<nt;k++){ if(!strncmp(tok[k],"sig=",4)) sig=atoi(tok[k]+4); if(!strncmp(tok[k],"bs0=",4)) g_bs0_patch=atoi(tok[k]+4); if(!strncmp(tok[k],"managed=",8)){ managed=1; sscanf(tok[k]+8,"%ld,%ld,%ld",&mx,&nm,&mn); } }
+      extern int g_bs0_patch, g_trim_k, g_trim_p; g_bs0_patch=0; g_trim_k=0; g_trim_p=0;
+      for(int k=7;k<nt;k++){ if(!strncmp(tok[k],"sig=",4)) sig=atoi(tok[k]+4); if(!strncmp(tok[k],"bs0=",4)) g_bs0_patch=atoi(tok[k]+4); if(!strncmp(tok[k],"trim=",5)) sscanf(tok[k]+5,"%d,%d",&g_trim_k,&g_trim_p); if(!strncmp(tok[k],"managed=",8)){ managed=1; sscanf(tok[k]+8,"%ld,%ld,%ld",&mx,&nm,&mn); } }
       if(id>=0&&id<MAXLINK){ if(g_links[id]) link_free(g_links[id]); g_links[id]=link_make(id,atoi(tok[2]),atol(tok[3]),atoi(tok[4]),atol(tok[5]),(unsigned)atol(tok[6]),managed,mx,nm,mn,sig);
         if(!g_links[id]){ ev_begin("LinkFail"); ev_i("id",id); ev_end(); } }
       i++;
